@@ -171,6 +171,25 @@ def bookmark_cursor(ctx, P, rule="ORDER-BOOKMARK"):
             ok = bool(inits) and all("metadata_offset[start]" in r for r in inits)
             ctx.ob(rule, "%s|%s-init" % (name, cur), ok, tu.loc(fn.node),
                    "`%s` initialised with %s" % (cur, inits))
+        # the copy-back reads each row's bytes from where THAT row was (the offset and length saved in the sort record), and the
+        # write cursor advances by the length just written
+        for a, n in F.calls_to("tsk_memcpy") + F.calls_to("tsk_memmove"):
+            d, sr = strip(n.kids[1]), strip(n.kids[2])
+            if d is None or sr is None or not (d.k == "BinaryOperator" and d.op == "+" and estr(d.kids[0]).endswith("->metadata")):
+                continue
+            so = strip(sr.kids[1]) if sr.k == "BinaryOperator" and sr.op == "+" else None
+            oks = so is not None and so.k == "MemberExpr" and so.name == "metadata_offset"
+            ctx.ob(rule, name + "|copy-back-source", bool(oks), tu.loc(n),
+                   "copy-back reads from `%s`" % estr(sr) if oks else
+                   "copy-back reads from `%s`: the source offset must be the sorted record's own saved metadata_offset, not the write cursor" % estr(sr))
+            ln = strip(n.kids[3])
+            okl = ln is not None and ln.k == "MemberExpr" and ln.name == "metadata_length" and so is not None and so.k == "MemberExpr" \
+                and estr(ln.kids[0]) == estr(so.kids[0])
+            ctx.ob(rule, name + "|copy-back-length", bool(okl), tu.loc(n), "length `%s` belongs to the same sort record as the source offset" % (estr(ln) if ln is not None else None))
+            for cur in cursors:
+                adv = [(o, r) for l, o, r, nn in F.assigns if l == cur and o == "+="]
+                oka = bool(adv) and ln is not None and all(r == estr(ln) for o, r in adv)
+                ctx.ob(rule, "%s|%s-advance" % (name, cur), oka, tu.loc(n), "`%s` advances by %s" % (cur, adv))
 
 
 def memcpy_alias(ctx, P, rule="MEMCPY-ALIAS", tus=("tables",), funcs=None):
